@@ -100,6 +100,45 @@ EDITS = [
      '    expected = degree + num_ctrlpts + 1\n    if len(knot_vector) != expected:\n        return False', ['knotvector.check'], 'quiet'),
     ('linalg.py', '        delta = stop - start', '        delta = -(start - stop)', ['linalg.linspace'], 'quiet'),
     ('compatibility.py', '        temp = [float(c * w) for c in pt]', '        temp = [float(w * c) for c in pt]', ['compatibility.combine_ctrlpts_weights'], 'quiet'),
+    # ---- helpers.curve_deriv_cpts
+    ('helpers.py', '        tmp = degree - k + 1\n        for i in range(0, r - k + 1):', '        tmp = degree - k\n        for i in range(0, r - k + 1):',
+     ['helpers.curve_deriv_cpts'], 'caught'),
+    ('helpers.py', '            den = kv[rs[0] + i + degree + 1] - kv[rs[0] + i + k]', '            den = kv[rs[0] + i + degree + 1] - kv[rs[0] + i + k - 1]',
+     ['helpers.curve_deriv_cpts'], 'caught'),
+    ('helpers.py', 'for elem1, elem2 in zip(PK[k - 1][i + 1], PK[k - 1][i])]', 'for elem1, elem2 in zip(PK[k - 1][i], PK[k - 1][i + 1])]',
+     ['helpers.curve_deriv_cpts'], 'caught'),
+    ('helpers.py', '        for i in range(0, r - k + 1):\n            den = kv[rs[0] + i + degree + 1]', '        for i in range(0, r - k):\n            den = kv[rs[0] + i + degree + 1]',
+     ['helpers.curve_deriv_cpts'], 'caught'),
+    ('helpers.py', 'PK[k][i][:] = [tmp * (elem1 - elem2) / den for elem1, elem2 in', 'PK[k][i][:] = [(elem1 - elem2) * tmp / den for elem1, elem2 in',
+     ['helpers.curve_deriv_cpts'], 'quiet'),
+    # ---- helpers.basis_function_ders (index safety, positive divisors, shape)
+    ('helpers.py', '            ndu[j][r] = right[r + 1] + left[j - r]\n            temp = ndu[r][j - 1] / ndu[j][r]\n            # Upper triangle\n            ndu[r][j] = saved + (right[r + 1] * temp)\n            saved = left[j - r] * temp\n        ndu[j][j] = saved\n\n    # Derivatives',
+     '            ndu[j][r] = right[r] + left[j - r]\n            temp = ndu[r][j - 1] / ndu[j][r]\n            # Upper triangle\n            ndu[r][j] = saved + (right[r + 1] * temp)\n            saved = left[j - r] * temp\n        ndu[j][j] = saved\n\n    # Derivatives',
+     ['helpers.basis_function_ders'], 'caught'),
+    ('helpers.py', '                j2 = degree - r\n            for j in range(j1, j2 + 1):\n                a[s2][j] = (a[s1][j] - a[s1][j - 1]) / ndu[pk + 1][rk + j]',
+     '                j2 = degree - r + 1\n            for j in range(j1, j2 + 1):\n                a[s2][j] = (a[s1][j] - a[s1][j - 1]) / ndu[pk + 1][rk + j]', ['helpers.basis_function_ders'], 'caught'),
+    ('helpers.py', '                a[s2][0] = a[s1][0] / ndu[pk + 1][rk]\n                d = a[s2][0] * ndu[rk][pk]\n            if rk >= -1:',
+     '                a[s2][0] = a[s1][0] / ndu[pk][rk]\n                d = a[s2][0] * ndu[rk][pk]\n            if rk >= -1:', ['helpers.basis_function_ders'], 'caught'),
+    ('helpers.py', '    ders = [[0.0 for _ in range(degree + 1)] for _ in range(order + 1)]\n    for j in range(0, degree + 1):\n        ders[0][j] = ndu[j][degree]\n\n    # Start calculating derivatives',
+     '    ders = [[0.0 for _ in range(degree + 1)] for _ in range(order)]\n    for j in range(0, degree + 1):\n        ders[0][j] = ndu[j][degree]\n\n    # Start calculating derivatives',
+     ['helpers.basis_function_ders'], 'caught'),
+    ('helpers.py', '            if (r - 1) <= pk:\n                j2 = k - 1\n            else:\n                j2 = degree - r\n            for j in range(j1, j2 + 1):\n                a[s2][j]',
+     '            if (r - 1) <= pk:\n                j2 = k\n            else:\n                j2 = degree - r\n            for j in range(j1, j2 + 1):\n                a[s2][j]', ['helpers.basis_function_ders'], 'caught'),
+    ('helpers.py', '            rk = r - k\n            pk = degree - k\n            if r >= k:\n                a[s2][0] = a[s1][0] / ndu[pk + 1][rk]',
+     '            pk = degree - k\n            rk = r - k\n            if r >= k:\n                a[s2][0] = a[s1][0] / ndu[pk + 1][rk]', ['helpers.basis_function_ders'], 'quiet'),
+    # ---- evaluators.CurveEvaluator.derivatives
+    ('evaluators.py', '        for k in range(0, du + 1):\n            for j in range(0, degree + 1):\n                CK[k][:] = [drv + (bfunsders[k][j] * ctl_pt) for drv, ctl_pt in\n                            zip(CK[k], ctrlpts[span - degree + j])]\n\n        # Return the derivatives\n        return CK\n\n\n@utl.export\nclass CurveEvaluatorRational',
+     '        for k in range(0, du):\n            for j in range(0, degree + 1):\n                CK[k][:] = [drv + (bfunsders[k][j] * ctl_pt) for drv, ctl_pt in\n                            zip(CK[k], ctrlpts[span - degree + j])]\n\n        # Return the derivatives\n        return CK\n\n\n@utl.export\nclass CurveEvaluatorRational',
+     ['evaluators.CurveEvaluator.derivatives'], 'caught'),
+    ('evaluators.py', '                CK[k][:] = [drv + (bfunsders[k][j] * ctl_pt) for drv, ctl_pt in\n                            zip(CK[k], ctrlpts[span - degree + j])]\n\n        # Return the derivatives\n        return CK\n\n\n@utl.export\nclass CurveEvaluatorRational',
+     '                CK[k][:] = [drv + (bfunsders[k][j] * ctl_pt) for drv, ctl_pt in\n                            zip(CK[k], ctrlpts[span - j])]\n\n        # Return the derivatives\n        return CK\n\n\n@utl.export\nclass CurveEvaluatorRational',
+     ['evaluators.CurveEvaluator.derivatives'], 'caught'),
+    ('evaluators.py', '                CK[k][:] = [drv + (bfunsders[k][j] * ctl_pt) for drv, ctl_pt in\n                            zip(CK[k], ctrlpts[span - degree + j])]\n\n        # Return the derivatives\n        return CK\n\n\n@utl.export\nclass CurveEvaluatorRational',
+     '                CK[k][:] = [drv + (bfunsders[0][j] * ctl_pt) for drv, ctl_pt in\n                            zip(CK[k], ctrlpts[span - degree + j])]\n\n        # Return the derivatives\n        return CK\n\n\n@utl.export\nclass CurveEvaluatorRational',
+     ['evaluators.CurveEvaluator.derivatives'], 'caught'),
+    ('evaluators.py', '                CK[k][:] = [drv + (bfunsders[k][j] * ctl_pt) for drv, ctl_pt in\n                            zip(CK[k], ctrlpts[span - degree + j])]\n\n        # Return the derivatives\n        return CK\n\n\n@utl.export\nclass CurveEvaluatorRational',
+     '                CK[k][:] = [(ctl_pt * bfunsders[k][j]) + drv for drv, ctl_pt in\n                            zip(CK[k], ctrlpts[span - degree + j])]\n\n        # Return the derivatives\n        return CK\n\n\n@utl.export\nclass CurveEvaluatorRational',
+     ['evaluators.CurveEvaluator.derivatives'], 'quiet'),
     # ---- _linalg.doolittle (breaking, then harmless)
     ('_linalg.py', 'matrix_u[i][k] = float(matrix_a[i][k] - sum([matrix_l[i][j] * matrix_u[j][k] for j in range(0, i)]))',
      'matrix_u[i][k] = float(matrix_a[i][k] - sum([matrix_l[i][j] * matrix_u[j][k] for j in range(1, i)]))', ['_linalg.doolittle'], 'caught'),
